@@ -498,11 +498,52 @@ class World(WsWorld):
             else:
                 opts["perMessageCompressionAccept"] = lambda r: None
         fac.setProtocolOptions(**opts)
+        cfg["decoy"] = ch.flag("decoy-connection-first", 0.3)
+        if cfg["decoy"]:
+            self.decoy_connection(aw, RecClient, url)
         e, peer = self.build_raw(fac, False)
         e.monitor = None
         self.start(e)
         self.run.log("cfg", "client", sorted((k, repr(v)) for k, v in cfg.items()))
         self.response_made = False
+
+    def decoy_connection(self, aw, RecClient, url):
+        """An earlier, unrelated client connection in the same process (other factory, other subprotocols, compression
+        offered and agreed): it completes its handshake and is lost before the judged connection starts.  Nothing of
+        it may influence what the judged connection accepts."""
+        from autobahn.websocket.compress import PerMessageDeflateOffer, PerMessageDeflateResponseAccept
+        fac2 = aw.WebSocketClientFactory(url, protocols=["zzz", "b"], **self.fw.factory_kw(self.reactor))
+        fac2.setProtocolOptions(openHandshakeTimeout=0, perMessageCompressionOffers=[PerMessageDeflateOffer()],
+                                perMessageCompressionAccept=lambda r: PerMessageDeflateResponseAccept(r))
+        fac2.protocol = RecClient
+        t, p, peer, e2p, p2e = self.fw.connect_raw(self.run, self.reactor, fac2, False, name="D")
+        d = Ep(self, "D", False)
+        d.t, d.p = t, p
+        p.ep = d
+        t.observers.append(d.on_write)
+        self.start(d)
+        t.flush(None)
+        self.fw.loop_drain(self)
+        t.flush(None)
+        if b"\r\n\r\n" not in bytes(peer.received):
+            raise HarnessError("decoy client sent no request")
+        peer.send(self.server_response_bytes(bytes(peer.received),
+                                             extra=b"Sec-WebSocket-Protocol: zzz\r\nSec-WebSocket-Extensions: permessage-deflate\r\n"))
+        chunk = p2e.take(len(p2e.buf))
+        d.on_delivered(chunk)
+        self.fw.deliver(self, t, chunk)
+        self.fw.loop_drain(self)
+        if not any(ev[0] == "onOpen" for ev in d.events):
+            raise HarnessError("decoy connection did not open: %r" % (d.events,))
+        peer.fin()
+        p2e.ended = True
+        self.fw.peer_fin(self, t)
+        self.fw.loop_drain(self)
+        t.flush(None)
+        self.fw.loop_drain(self)
+        for where, exc in list(t.escaped):
+            self.on_escape(d, where, exc)
+        self.run.probe("decoy-connection-before")
 
     def make_response(self):
         ch = self.run.ch
@@ -572,7 +613,8 @@ class World(WsWorld):
             hdr = [(k, bad if k == "Sec-WebSocket-Accept" else v) for k, v in hdr]
             valid = False
         elif mut == "proto-not-requested":
-            hdr = [(k, v) for k, v in hdr if k != "Sec-WebSocket-Protocol"] + [("Sec-WebSocket-Protocol", "zzz")]
+            other = ch.pick([x for x in ("zzz", "b", "a") if x not in (cfg["protocols"] or [])], "other-proto")
+            hdr = [(k, v) for k, v in hdr if k != "Sec-WebSocket-Protocol"] + [("Sec-WebSocket-Protocol", other)]
             valid = False
         elif mut == "proto-dup":
             if sp:
